@@ -45,9 +45,10 @@ RULE = (
     " two-entry maps (swap, chain a->b b->c, double merge, two fresh, parameter<->kinematic"
     " swap, unknown+known), identity, empty, dict and iterable-of-pairs form; deeper levels:"
     " the core maps on every (thorough) / every core-reached (quick) state; depth 2 (quick)"
-    " / 3 (thorough). Maps whose composed effect puts two kinematic variables, a kinematic"
-    " variable and a parameter, or two parameters with different assumptions under one name"
-    " are not generated (counted as excluded). BFS merges equal composed maps; non-trivial ="
+    " / 3 (thorough). Maps whose composed effect puts two kinematic variables or a kinematic"
+    " variable and a parameter under one name are not generated (counted as excluded); two"
+    " parameters with different assumptions under one name stay two symbols (structure"
+    " oracle only) and later renames of that name must move both. BFS merges equal composed maps; non-trivial ="
     " distinct (model, composed map) states with >= 1 symbol actually renamed on which the"
     " numeric oracle ran"
 )
@@ -55,8 +56,10 @@ ASSUMPTIONS = [
     "merging: the statement makes the result a function of the composed map (checked on"
     " every transition against the reference applied to the ORIGINAL model)",
     "a merge of two parameters may carry over either of the two defaults",
-    "merging parameters whose assumptions differ is excluded: no single symbol can preserve"
-    " both assumption sets and couple them",
+    "merging parameters whose assumptions differ: no single symbol can preserve both"
+    " assumption sets, so the reference keeps two symbols of one name (assumptions are"
+    " preserved, the coupling clause is not judged there) and applies later renames of that"
+    " name to both",
     "numeric values come from one memoised interpreter (PoolSum by looping, amplitudes by"
     " look-up, WignerD by vp.ref.spin, leaves by sympy.lambdify of the library's doit());"
     " cross-checked against vp.interp.MultiEvaluator on the original of the light models",
@@ -232,6 +235,11 @@ def make_ops(roles: dict, weight: str) -> tuple[list, int]:
     add(core, [(UNKNOWN, "X1")])
     if have("coef1", "angle"):
         add(core, [(r["coef1"], r["angle"]), (r["angle"], r["coef1"])])
+    if have("radius", "width"):
+        # different assumptions (positive / nonnegative): two symbols of one name, which a
+        # later rename of that name must both follow
+        add(core, [(r["radius"], r["width"])])
+        add(core, [(r["width"], "X3")])
     if weight == "heavy":
         core = core[:1] + core[2:6] + core[9:10] + core[12:13] + core[14:16]
     ops = list(core)
@@ -377,6 +385,48 @@ def cases(tier, seed):
 def snapshot(model):
     return (model.intensity, list(model.amplitudes.items()), list(model.parameter_defaults.items()),
             list(model.kinematic_variables.items()), list(model.components.items()), model.reaction_info)
+
+
+def mutate_and_restore(model):
+    """Edit the mutable mappings of `model` in place (change one value, add one key), let the
+    caller look at other models, and undo the edits.  Returns a closure-free description;
+    the edits are undone by `undo_edits`."""
+    import sympy as sp  # noqa: PLC0415
+
+    edited = []
+    marker = sp.Symbol("verif_marker_")
+    pd = model.parameter_defaults
+    if len(pd):
+        key = next(iter(pd))
+        old = pd[key]
+        try:
+            pd[key] = (old + 1) if isinstance(old, (int, float, complex)) else 1.25
+            edited.append("parameter_defaults[first key]")
+            _UNDO.append((pd, key, old, True))
+        except TypeError:
+            pass
+    for attr in ("amplitudes", "components", "kinematic_variables"):
+        mapping = getattr(model, attr)
+        k = "verif_marker_" if attr == "components" else marker
+        try:
+            mapping[k] = marker
+            edited.append(f"{attr}[new key]")
+            _UNDO.append((mapping, k, None, False))
+        except TypeError:
+            pass
+    return edited
+
+
+_UNDO: list = []
+
+
+def undo_edits() -> None:
+    while _UNDO:
+        mapping, key, old, existed = _UNDO.pop()
+        if existed:
+            mapping[key] = old
+        else:
+            del mapping[key]
 
 
 def same_snapshot(a, b) -> bool:
@@ -651,6 +701,17 @@ def eval_case(case):
             if not same_snapshot(snapshot(model), snap):
                 bad("receiver-mutated", "the model rename_symbols was called on has changed")
                 snap = snapshot(model)
+            # ... and stays untouched when the RESULT is edited afterwards (no mutable
+            # container is shared between the two models)
+            if new is not model:
+                shared = mutate_and_restore(new)
+                if not same_snapshot(snapshot(model), snap):
+                    bad("aliasing", f"editing {shared} of the renamed model changed the model rename_symbols"
+                                    " was called on")
+                undo_edits()
+                if not same_snapshot(snapshot(model), snap):
+                    snap = snapshot(model)
+                n_eval += 1
             # warnings: exactly the names that are not symbols of the receiver
             current = set(st["composed"].values())
             unknown = [a for a in ren if a not in current]
@@ -671,7 +732,12 @@ def eval_case(case):
                 moved = {su.roles_of[o] for o, n in dst["composed"].items() if st["composed"][o] != n}
                 kinds.append("+".join(sorted(moved)))
             count("/".join(kinds))
-            if first:
+            if first and su.rename_model.split(dst["composed"]):
+                # two same-named symbols with different assumptions: structure only (the
+                # numeric interpreter binds values by name)
+                n_states += 1
+                count("split-name-state(structure only)")
+            elif first:
                 n_states += 1
                 res = check_numeric(su, new, dst["composed"], bad)
                 n_eval += res["n"]
